@@ -225,7 +225,11 @@ func (n *Node) DumpUTXO() refchain.UTXO {
 // snapshots) with the reference set and follows the purge option.
 func DiffUTXO(got, want refchain.UTXO) string { return diffUTXO(got, want, false) }
 
-func DiffNodeUTXO(got, want refchain.UTXO) string { return diffUTXO(got, want, PurgeUnspendable) }
+func DiffNodeUTXO(got, want refchain.UTXO) string { return diffUTXO(got, want, PurgeUnspendable || PurgedByHand) }
+
+// PurgedByHand: the operator's "purge" command has been run (UnspentDB.PurgeUnspendable(true)) on a node that does not purge
+// by itself: unspendable outputs that existed then are gone, later ones are kept - either is right.
+var PurgedByHand bool
 
 func diffUTXO(got, want refchain.UTXO, purge bool) string {
 	var diffs []string
@@ -244,7 +248,7 @@ func diffUTXO(got, want refchain.UTXO, purge bool) string {
 		}
 	}
 	for k, g := range got {
-		if _, ok := want[k]; !ok || (purge && refUnspendable(g.Script)) {
+		if _, ok := want[k]; !ok || (purge && !PurgedByHand && refUnspendable(g.Script)) {
 			diffs = append(diffs, fmt.Sprintf("extra %s:%d (value %d height %d)", k.Hash, k.Idx, g.Value, g.Height))
 		}
 	}
